@@ -10,6 +10,12 @@ request refers to it.  Type s-expressions:
       | (struct F*) | (named ID T)
   F ::= (f NAME 0|1 TAGHEX|- T)
 
+`ID` is the identity of a defined type: a bare name (`NI8`, `T7_2`) for the types of the harness' package
+main, `<dir>/v1.<Name>` (`pa/v1.ID`, `pb/v1.ID`) for the types of the generated harness packages
+`harness/<dir>/v1`.  Those packages are all called `v1`, so DISTINCT types (different ids here) print
+identically under `reflect.Type.String()`; `typeStr` below prints what reflect prints (`v1.ID`), the model's
+lookups compare ids.
+
 Requests (result after `=>` in the harness output):
   shape sid T                      size align
   offs sid i.j.k                   off size align          (value selector path)
@@ -124,6 +130,13 @@ def primStr : Prim → String
 def quote (s : String) : String :=
   "\"" ++ String.join (s.toList.map (fun c => if c == '"' then "\\\"" else if c == '\\' then "\\\\" else c.toString)) ++ "\""
 
+/-- `reflect.Type.String()` of a defined type: package NAME (last element of the import path) and type name;
+the import path itself is not printed. -/
+def namedStr (id : String) : String :=
+  match (id.splitOn "/").reverse with
+  | [_] | [] => "main." ++ id
+  | last :: _ => last
+
 mutual
 partial def typeStr : GoType → String
   | .prim p => primStr p
@@ -135,7 +148,7 @@ partial def typeStr : GoType → String
   | .array n t => "[" ++ toString n ++ "]" ++ typeStr t
   | .struct .nil => "struct {}"
   | .struct fs => "struct { " ++ "; ".intercalate (fieldStrs fs) ++ " }"
-  | .named id _ => "main." ++ id
+  | .named id _ => namedStr id
 partial def fieldStrs : Fields → List String
   | .nil => []
   | .cons n e tg t r =>
